@@ -1124,3 +1124,121 @@ func isDeepCloner(p *Prog, fn *ssa.Function) bool {
 	}
 	return true
 }
+
+func init() {
+	register(&Rule{
+		ID: "C05.R5", Props: []string{"C05"}, Min: 2,
+		Doc: "a shorthand tag is the include by construction: the rewrite of a registered component tag only renames the element to `template` and appends an `include` attribute whose value is the registry's filename — it touches no other field, keeps the attributes (props) and the children (slot content), and the registry is consulted with the element's own tag name",
+		Run: func(p *Prog, c *Ctx) {
+			fn := p.MustFn("(*vuego.Vue).replaceWithInclude")
+			node := fn.Params[1]
+			file := fn.Params[2]
+			fields := map[string]ssa.Value{}
+			eachInstr(fn, func(in ssa.Instruction) {
+				if st, ok := in.(*ssa.Store); ok {
+					if fa, ok := st.Addr.(*ssa.FieldAddr); ok && fa.X == node {
+						fields[fieldName(fa.X.Type(), fa.Field)] = st.Val
+					}
+				}
+			})
+			var names []string
+			for k := range fields {
+				names = append(names, k)
+			}
+			sort.Strings(names)
+			onlyTwo := len(fields) == 2 && fields["Data"] != nil && fields["Attr"] != nil
+			c.check(onlyTwo, "replaceWithInclude: fields written", p.pos(fn.Pos()), "Data and Attr only", "the shorthand rewrite writes "+strings.Join(names, ", ")+": it must only rename the element and append the include attribute (children and other attributes are the component's props and slot content)")
+			if d, ok := fields["Data"]; ok {
+				s, isC := constString(d)
+				c.check(isC && s == "template", "replaceWithInclude: renamed to template", p.pos(fn.Pos()), "Data = \"template\"", "the element is not renamed to `template`")
+			}
+			if a, ok := fields["Attr"]; ok {
+				isAppend := isCallNamed(a, "builtin.append") != nil
+				keyOK, valOK := false, false
+				eachInstr(fn, func(in ssa.Instruction) {
+					if st, ok := in.(*ssa.Store); ok {
+						if fv := fieldVar(st.Addr); fv != nil && fv.Pkg() != nil && fv.Pkg().Path() == "golang.org/x/net/html" {
+							if fv.Name() == "Key" {
+								if s, ok := constString(st.Val); ok && s == "include" {
+									keyOK = true
+								}
+							}
+							if fv.Name() == "Val" && st.Val == file {
+								valOK = true
+							}
+						}
+					}
+				})
+				c.check(isAppend && keyOK && valOK, "replaceWithInclude: include attribute appended", p.pos(fn.Pos()), "Attr = append(Attr, {include, filename})", "the include attribute is not appended with the registered filename (existing attributes would be lost or the wrong file included)")
+			}
+			// the registry lookup uses the element's tag
+			pc := p.MustFn("(*vuego.Vue).processComponentNode")
+			okLookup := false
+			for _, site := range callsIn(pc) {
+				if calleeName(site.Common()) == "(*vuego.Vue).GetComponentFile" {
+					if f := loadedField(site.Common().Args[1]); f != nil && f.Name() == "Data" {
+						okLookup = true
+					}
+				}
+			}
+			c.check(okLookup, "processComponentNode: registry keyed by the tag name", p.pos(pc.Pos()), "GetComponentFile(node.Data)", "the component registry is not consulted with the element's tag name")
+		},
+	})
+
+	register(&Rule{
+		ID: "C05.R6", Props: []string{"C05", "C14"}, Min: 2,
+		Doc: "bound props keep their type: in the attribute evaluator the value recorded for a bound attribute is evalBoundAttribute's result itself (no stringification in between), and the later pass that adds the string form of every attribute to the result map only fills keys that are absent, so it cannot overwrite the typed value",
+		Run: func(p *Prog, c *Ctx) {
+			fn := p.MustFn("(*vuego.Vue).evalAttributes")
+			n := 0
+			eachInstr(fn, func(in ssa.Instruction) {
+				mu, ok := in.(*ssa.MapUpdate)
+				if !ok || !isNamedMapStringAny(mu.Map.Type()) {
+					return
+				}
+				// is this the returned results map?
+				isResult := false
+				for _, r := range returnsOf(fn) {
+					if len(r.Results) > 0 && r.Results[0] == mu.Map {
+						isResult = true
+					}
+				}
+				if !isResult {
+					return
+				}
+				n++
+				fromBound, stringified := false, false
+				for _, o := range p.origins(mu.Value, OriginOpts{}) {
+					if ex, ok := o.(*ssa.Extract); ok && isCallNamed(ex.Tuple, "(*vuego.Vue).evalBoundAttribute") != nil {
+						fromBound = true
+					}
+					if cl, ok := o.(*ssa.Call); ok && strings.HasPrefix(calleeName(&cl.Call), "fmt.Sprint") {
+						stringified = true
+					}
+				}
+				if fromBound {
+					c.check(!stringified, fmt.Sprintf("evalAttributes: typed bound value recorded#%d", n), p.instrPos(mu), "the evaluated value itself", "the bound value is stringified before it is recorded: props lose their type (numbers, booleans, maps, slices arrive as strings in the component)")
+					return
+				}
+				absent := guardedBy(mu.Block(), func(cnd ssa.Value, want bool) bool {
+					if ex, ok := cnd.(*ssa.Extract); ok && ex.Index == 1 && !want {
+						if lk, ok := ex.Tuple.(*ssa.Lookup); ok && lk.X == mu.Map {
+							return true
+						}
+					}
+					return false
+				})
+				c.check(absent, fmt.Sprintf("evalAttributes: string form added#%d only when absent", n), p.instrPos(mu), "guarded by !exists", "the string form of an attribute can overwrite the typed bound value recorded earlier: props lose their type")
+			})
+			c.check(n >= 2, "evalAttributes: result map is filled", p.pos(fn.Pos()), fmt.Sprintf("%d stores", n), "the attribute evaluator no longer records bound and static attributes in its result map")
+		},
+	})
+}
+
+func isNamedMapStringAny(t types.Type) bool {
+	m, ok := t.Underlying().(*types.Map)
+	if !ok {
+		return false
+	}
+	return isString(m.Key()) && types.IsInterface(m.Elem())
+}
